@@ -75,8 +75,13 @@ pub fn run(seed: u64, tier: &str, out: &mut Out) {
                 else {
                     let exact = if complete { cells as u128 } else { pos as u128 * cells as u128 / l as u128 };
                     if (filled as i128 - exact as i128).abs() > 1 { verdict = format!("FAIL filled={filled} exact-floor={exact}"); }
-                    let neither = filled > 0 || (pos > 0 && l > 0); // not empty
-                    let _ = (neither, head);
+                    // "at most one partial cell exactly when the bar is neither empty nor full": with a position above zero and
+                    // room left the cell after the filled ones is a partial cell (one of the characters between the first and
+                    // the last), at position zero there is none. (Two characters only: partial and background cell look alike.)
+                    if verdict == "ok" && nchars > 2 && cells > 0 && l > 0 {
+                        if pos > 0 && !complete && filled < cells as usize && !head { verdict = format!("FAIL no-partial-cell position {pos} of {l}: {filled} filled cells of {cells} and no partial cell"); }
+                        if pos == 0 && head { verdict = "FAIL partial-cell-at-zero".into(); }
+                    }
                 }
             }
             if verdict == "ok" && wide_bar && rest <= term_w as usize { if cols > term_w as usize || term_w as usize - cols >= cw { verdict = format!("FAIL wide-bar line {cols} columns on a {term_w}-column terminal"); } }
